@@ -86,10 +86,22 @@ void PUTStatement::unparse(Context& ctx, FILE * out) const
   fputs(Statement::KEYWORDS[keyword()], out);
   if (_args.empty())
     return;
+  std::vector<std::string> texts;
   for (const Expression * exp : _args)
+    texts.push_back(exp->unparse(ctx));
+  for (size_t i = 0; i < texts.size(); ++i)
   {
+    /* a name followed by a parenthesis would read back as a call: the
+     * argument that ends with the name is enclosed */
+    bool enclose = (i + 1 < texts.size() && !texts[i].empty() && !texts[i + 1].empty() &&
+            texts[i + 1].front() == '(' &&
+            (::isalnum((unsigned char)texts[i].back()) || texts[i].back() == '_'));
     fputs(" ", out);
-    fputs(exp->unparse(ctx).c_str(), out);
+    if (enclose)
+      fputs("(", out);
+    fputs(texts[i].c_str(), out);
+    if (enclose)
+      fputs(")", out);
   }
 }
 
